@@ -157,18 +157,27 @@ def specWalk (t : List String) : String :=
       ";".intercalate ((Spec.absRun w.1 w.2 [some 0] (parseOps rest)).filterMap (obsStr k buf))
   | _ => "*"
 
+/-- FBT <byte> [<hex colour info>]: `FramebufferTag::buffer_type` (the model's `fbBufferType`) on a tag with that type byte
+    and that colour-info field (default 01 00 03 04 05 06) -/
 def fbtCase (t : List String) : String :=
+  let go (b : String) (info : Bytes) : String :=
+    let T : Bytes := enc32 8 ++ enc32 (32 + info.length) ++ (List.replicate 20 0 : Bytes) ++ ([32, UInt8.ofNat (b.toNat! % 256), 0, 0] : Bytes) ++ info
+    match fbBufferType T ⟨0, 32 + info.length, 0, info.length⟩ with
+    | .ok (.ok (.indexed _ num)) => s!"known:0 palette={num}"
+    | .ok (.ok (.rgb ..)) => "known:1"
+    | .ok (.ok .text) => "known:2"
+    | .ok (.error tb) => s!"unknown:{tb}"
+    | .panic => "panic" | .oob => "oob" | .ub => "ub"
   match t with
-  | [_, b] =>
-    match fbTypeOfByte b.toNat! with
-    | some 0 => "known:0 palette=1"
-    | some k => s!"known:{k}"
-    | none => s!"unknown:{b.toNat!}"
+  | [_, b] => go b [1, 0, 3, 4, 5, 6]
+  | [_, b, hx] => go b (unhex hx)
   | _ => "bad-case"
 
+/-- the specification's classification: 0 / 1 / 2 are the known types (too little colour information for an indexed or RGB
+    tag may be rejected by a controlled panic), every other byte is reported as unknown, carrying that byte -/
 def specFbt (t : List String) : String :=
   match t with
-  | [_, b] => let n := b.toNat!; if n ≤ 2 then s!"known:{n}*" else s!"unknown:{n}"
+  | _ :: b :: _ => let n := b.toNat!; if n ≤ 2 then s!"known:{n}*||panic" else s!"unknown:{n}"
   | _ => "*"
 
 def magicCase : String := s!"{(hex64 MBI_MAGIC.toUInt64).drop 8} {(hex64 HEADER_MAGIC.toUInt64).drop 8}"
